@@ -168,6 +168,7 @@ def run(ctx):
                                what="%s: system without a root, success claimed at x=%s" % (solver, np.asarray(x, dtype=float).reshape(-1)[:3]))
                 ctx.count("solver:%s:%s:%s" % (solver, name if not has_root else "has-root", "success" if bool(succ) else "failure"))
     ntr_poor_model_block(ctx, rng)
+    bounded_block(ctx, rng)
     consumer_block(ctx, rng)
 
 
@@ -249,6 +250,51 @@ def ntr_poor_model_block(ctx, rng):
                                        key="ntr-success-without-residual:" + name, what="newtontrustregion (default damping) reported success with ||F|| = %.3e (100 n tol = %.1e)" % (res, 100 * n * tol))
                         ctx.oracle("shape-preserved", np.shape(x) == np.shape(x0), inp, what="result shape %s, guess shape %s" % (np.shape(x), np.shape(x0)))
                         ctx.count("ntr-poor-model:%s:%s" % (name, "success" if bool(succ) else "failure"))
+
+
+def bounded_block(ctx, rng):
+    """newtontrustregion and hybrj called directly WITH var_bounds (the arcsin change of variables; one box [lb, ub] for all components, the form the code's broadcasting supports): cold starts inside the box and warm
+    starts (solve, then solve again from the returned point, as a continuation or polishing call does); scalar (0-d), vector and matrix guesses"""
+    def kepler(M, e):
+        return (lambda E: E - e * np.sin(E) - M), (lambda E: np.diag(1.0 - e * np.cos(E)))
+    M = np.array([0.4, 1.1, 2.3])
+    fK, jK = kepler(M, 0.6)
+    cases = [
+        ("square-minus-four", lambda x: x ** 2 - 4.0, lambda x: np.atleast_2d(2.0 * x) if np.ndim(x) == 0 else np.diag(2.0 * np.reshape(x, (-1,))), 0.0, 5.0, [np.array(1.0), np.array([3.5]), np.array(2.0)]),
+        ("kepler-3", fK, jK, 0.0, float(np.pi), [np.array([0.5, 1.0, 2.0]), np.array([2.5, 0.2, 3.0])]),
+        ("cubic-offset-2", lambda x: np.array([x[0] ** 3 - 0.5, x[1] + 0.2 * x[0] - 1.3]), lambda x: np.array([[3 * x[0] ** 2, 0.0], [0.2, 1.0]]),
+         -1.0, 4.0, [np.array([1.5, 0.5]), np.array([0.3, 3.0])]),
+    ]
+    solvers = [("ntr", lambda F, x0, J, tol, vb: OPT.newtontrustregion(F, x0, jac=J, tol=tol, var_bounds=vb)),
+               ("ntr-fd", lambda F, x0, J, tol, vb: OPT.newtontrustregion(F, x0, jac=None, tol=tol, var_bounds=vb)),
+               ("hybrj", lambda F, x0, J, tol, vb: OPT.hybrj(F, x0, J, tol=tol, var_bounds=vb))]
+    for (name, F, J, lb, ub, starts) in cases:
+        for (sname, solve) in solvers:
+            for x0 in starts:
+                for tol in (1e-8, 1e-11):
+                    x = np.array(x0, dtype=np.float64)
+                    for leg in range(3):        # leg 0: cold start; legs 1, 2: warm starts from the returned point
+                        inp = dict(kind="solver", solver=sname + "-bounded", system=name, tol=tol, x0=np.reshape(x, (-1,)).tolist(), leg=leg,
+                                   lower=lb, upper=ub)
+                        try:
+                            with np.errstate(all="ignore"):
+                                xr, info = solve(F, x.copy(), J, tol, (lb, ub))
+                        except Exception as e:
+                            ctx.count("bounded:exception:" + type(e).__name__)
+                            break
+                        succ = bool(info[0])
+                        xv = np.asarray(xr, dtype=np.float64)
+                        res = float(np.linalg.norm(np.asarray(F(xv if np.ndim(x0) else xv.reshape(())), dtype=float)))
+                        n = max(1, xv.size)
+                        ctx.oracle("shape-preserved", np.shape(xr) == np.shape(x0), inp, what="result shape %s, guess shape %s" % (np.shape(xr), np.shape(x0)))
+                        if succ:
+                            ctx.oracle("solver-success-means-small-residual", res <= 100 * n * tol, dict(inp, residual=res, x=xv.reshape(-1).tolist()),
+                                       key="bounded-success-without-residual:" + sname, what="%s with var_bounds reported success at a point with ||F|| = %.3e (100 n tol = %.1e)" % (sname, res, 100 * n * tol))
+                        ctx.count("bounded:%s:%s:leg%d" % (sname, "success" if succ else "failure", leg))
+                        if not succ or not np.all(np.isfinite(xv)):
+                            break
+                        x = np.reshape(xv, np.shape(x0))
+                    ctx.nontrivial((name, sname, tol, tuple(np.reshape(x0, (-1,)).tolist())))
 
 
 def replay(rep):
